@@ -384,7 +384,9 @@ theorem compileRD_erase (T : List String) (cfg : Cfg) (aE aF : RDArgs)
   simp only at hxF ⊢
   split
   · rfl
-  · simp only [hxE, hxF, Bool.false_eq_true, if_false, exceptMicros]
+  · simp only [hxE, hxF, Bool.false_eq_true, or_false, exceptMicros]
+    split
+    · rfl
     split
     · split
       · simp only [b1, b2, c1, c2, Bool.false_eq_true, false_or, or_false,
